@@ -37,7 +37,7 @@ def install(I):
             return x
         c = ctx()
         s = z3.Solver()
-        s.set("timeout", 3000)
+        s.set("rlimit", 5000000)      # deterministic budget (construction-time query)
         for h in c.hyps():
             s.add(h)
         if s.check() != z3.sat:
